@@ -25,6 +25,7 @@ def run(repo, run, tier):
     selection(repo, run)
     slope_cache(repo, run)
     containers(repo, run)
+    evaluation_paths(repo, run)
     balance_rule(repo, run, "C06.5", want="all")
     from .c09 import removal_index
     removal_index(repo, run, "C06.7")
@@ -118,7 +119,8 @@ def end_slopes(repo, run):
         run.report("C06.6", ITY, fresh[0] if fresh else call, "the start slope is not rhs(initial_time, initial_state)", text="RK initial slope")
     sc = repo.get(ITY, extract.SPLIT + ".__call__")
     S = [a.arg for a in sc.args.args]
-    c3 = Canon(rename=dict(zip(S, ["self", "rhs", "t0", "y0", "consts", "h"])))
+    from ..sym import inline_locals as _il
+    c3 = Canon(rename=dict(zip(S, ["self", "rhs", "t0", "y0", "consts", "h"])), env=_il(sc))
     for attr, wt, wy in (("initial_rhs", "t0", "y0"), ("final_rhs", "t0 + self.dTime", "y0 + self.dState")):
         sts = [st for st in walk_no_nested(sc) if isinstance(st, ast.Assign) and any(is_self_attr(t, attr) for t in st.targets) and isinstance(st.value, ast.Call)]
         ok = len(sts) == 1 and c3.poly(sts[0].value.args[0]) == T(wt) and c3.poly(sts[0].value.args[1]) == T(wy)
@@ -318,3 +320,62 @@ def containers(repo, run):
         run.report("C06.4", DS, test, "the decision to insert at the FRONT of the ascending t_eval compares the new time with element [%s] only: a time that is smaller than "
                                       "the last element but larger than the first is inserted at the front and t_eval (which the lookup bisects) is no longer sorted" % ", ".join(refs),
                    text="front insertion guarded by `%s`" % src(test))
+
+
+def evaluation_paths(repo, run):
+    """DenseOutput.__call__ / grad: a scalar query is answered by piece find_interval(t) evaluated at t; an array query pairs each flattened query with
+    the piece index computed for THAT query and restores the query's shape; a list of pieces is added piece by piece with its own knot."""
+    from ..sym import inline_locals
+    rid = run.rule("C06.8", "DenseOutput.__call__ and grad: scalar path = y_interpolants[find_interval(t)](t); array path = [y_interpolants[idx](t_k) for (idx, t_k) in "
+                            "zip(find_interval_vec(flat t), flat t)] stacked on axis 0 and reshaped to shape(t) + value shape; add_interpolant pairs t[i] with y_interp[i]", floor=5)
+    for q, meth in (("DenseOutput.__call__", None), ("DenseOutput.grad", "grad")):
+        fn = repo.get(DS, q)
+        run.analysed_fn(DS, fn)
+        tp = [a.arg for a in fn.args.args][1]
+        c = Canon(env=inline_locals(fn), rename={tp: "T"})
+        rets = [r for r in ast.walk(fn) if isinstance(r, ast.Return) and r.value is not None]
+        scalar_ok = vec_ok = False
+        for r in rets:
+            txt = c.text(r.value).replace(" ", "")
+            c0 = Canon()
+            want_scalar = c0.text(ast.parse("self.y_interpolants[self.find_interval(T)]%s(T)" % ("." + meth if meth else ""), mode="eval").body).replace(" ", "")
+            if txt == want_scalar:
+                scalar_ok = True
+            if txt.startswith("reshape("):
+                # reshape(stack([...], axis=0), shape(T) + shape(stack)[1:])
+                lcs = [n for n in ast.walk(fn) if isinstance(n, ast.ListComp)]
+                for lc in lcs:
+                    g = lc.generators[0]
+                    if isinstance(g.iter, ast.Call) and fname(g.iter) == "zip" and len(g.iter.args) == 2 and isinstance(g.target, ast.Tuple) and len(g.target.elts) == 2:
+                        i_name, t_name = src(g.target.elts[0]), src(g.target.elts[1])
+                        elt = src(lc.elt).replace(" ", "")
+                        want_elt = "self.y_interpolants[%s]%s(%s)" % (i_name, "." + meth if meth else "", t_name)
+                        idx_src, t_src = c.text(g.iter.args[0]).replace(" ", ""), c.text(g.iter.args[1]).replace(" ", "")
+                        flat = Canon().text(ast.parse("D.ar_numpy.reshape(D.ar_numpy.asarray(T), (-1,))", mode="eval").body).replace(" ", "")
+                        want_idx = Canon().text(ast.parse("self.find_interval_vec(D.ar_numpy.reshape(D.ar_numpy.asarray(T), (-1,)))", mode="eval").body).replace(" ", "")
+                        if elt == want_elt and t_src == flat and idx_src == want_idx and not g.ifs:
+                            stack_ok = any(isinstance(n, ast.Call) and fname(n) == "stack" and n.args and n.args[0] is lc and any(k.arg == "axis" and src(k.value) == "0" for k in n.keywords)
+                                           for n in ast.walk(fn))
+                            shape_ok = "shape(T)+" in txt or "shape(T)+" in txt.replace("D.ar_numpy.", "")
+                            vec_ok = stack_ok and shape_ok
+        run.judged(rid, "%s scalar path" % q, ok=scalar_ok)
+        if not scalar_ok:
+            run.report("C06.8", DS, fn, "%s: a scalar query is not answered by piece find_interval(t) evaluated at t" % q, text="%s scalar path" % q)
+        run.judged(rid, "%s array path" % q, ok=vec_ok)
+        if not vec_ok:
+            run.report("C06.8", DS, fn, "%s: an array query does not pair each flattened query with the piece index computed for that query (stack axis 0, "
+                                        "reshape to shape(t) + value shape)" % q, text="%s array path" % q)
+    add = repo.get(DS, "DenseOutput.add_interpolant")
+    P = [a.arg for a in add.args.args]
+    rec = [cc for cc in ast.walk(add) if isinstance(cc, ast.Call) and dotted(cc.func) == "self.add_interpolant"]
+    ok = False
+    for cc in rec:
+        loop = next((a for a in ancestors(cc) if isinstance(a, ast.For)), None)
+        if loop is not None and isinstance(loop.iter, ast.Call) and dotted(loop.iter.func) == "range" and src(loop.iter.args[0]) == "len(%s)" % P[1]:
+            i = src(loop.target)
+            ok = [src(a) for a in cc.args] == ["%s[%s]" % (P[1], i), "%s[%s]" % (P[2], i)]
+        if loop is not None and isinstance(loop.iter, ast.Call) and fname(loop.iter) == "zip" and [src(a) for a in loop.iter.args] == [P[1], P[2]]:
+            ok = [src(a) for a in cc.args] == [src(e) for e in loop.target.elts]
+    run.judged(rid, "add_interpolant adds a list of pieces pairwise, in order", ok=ok)
+    if not ok:
+        run.report("C06.8", DS, add, "a list of pieces (Richardson sub-steps) is not added pairwise (t[i], y_interp[i]) in order", text="add_interpolant list path")
